@@ -486,8 +486,19 @@ type FuncContract struct {
 	GhostSets []*Clause // "ghostset x.f = expr" applied at exit
 	EnsuresPanic []*Clause
 	GhostAlls    []*Clause // "ghostall S.f(x) = expr": pointwise redefinition of a ghost field at exit
+	Callbacks    []*CallbackDecl // "callback param iface.contract(ghostargs)": contract of a function-typed parameter
 	File      string
 	Line      int
+}
+
+// CallbackDecl: a function-typed parameter (or captured variable) obeys a
+// named callback contract (an `iface` block); Args are the values of that
+// contract's ghost parameters (option ghostparams) in the callee's terms.
+type CallbackDecl struct {
+	Param string
+	Iface string
+	Args  []Expr
+	Text  string
 }
 
 type PredDef struct {
@@ -748,6 +759,31 @@ func ParseContractFile(path string, pkg string) (*ContractFile, error) {
 			} else {
 				cur.Options[fs[0]] = "true"
 			}
+		case "callback":
+			if cur == nil {
+				return nil, fail(fmt.Errorf("callback outside func"))
+			}
+			fs := strings.SplitN(tail, " ", 2)
+			if len(fs) != 2 {
+				return nil, fail(fmt.Errorf("callback wants: callback <param> <contract>(<ghost args>)"))
+			}
+			spec := strings.TrimSpace(fs[1])
+			cb := &CallbackDecl{Param: fs[0], Text: tail}
+			if op := strings.Index(spec, "("); op >= 0 && strings.HasSuffix(spec, ")") {
+				cb.Iface = strings.TrimSpace(spec[:op])
+				for _, a := range splitTopLevel(spec[op+1:len(spec)-1], ',') {
+					if a = strings.TrimSpace(a); a != "" {
+						e, err := ParseExpr(a)
+						if err != nil {
+							return nil, fail(err)
+						}
+						cb.Args = append(cb.Args, e)
+					}
+				}
+			} else {
+				cb.Iface = spec
+			}
+			cur.Callbacks = append(cur.Callbacks, cb)
 		case "ghostall":
 			if cur == nil {
 				return nil, fail(fmt.Errorf("ghostall outside func"))
